@@ -291,6 +291,12 @@ func (r *renderState) preInline(source []byte, inline *Inline) bool {
 		}
 		return false
 	case SoftLineBreakKind:
+		if inline.Span().Len() == 0 {
+			// The line ending the parser supplies for a code block
+			// that ends at end of input: code is never reflowed.
+			r.dst = append(r.dst, '\n')
+			return false
+		}
 		switch r.SoftBreakBehavior {
 		case SoftBreakHarden:
 			r.openTag(atom.Br)
@@ -298,11 +304,7 @@ func (r *renderState) preInline(source []byte, inline *Inline) bool {
 		case SoftBreakSpace:
 			r.dst = append(r.dst, ' ')
 		default:
-			if inline.Span().Len() > 0 {
-				r.dst = append(r.dst, spanSlice(source, inline.Span())...)
-			} else {
-				r.dst = append(r.dst, '\n')
-			}
+			r.dst = append(r.dst, spanSlice(source, inline.Span())...)
 		}
 		return false
 	case HardLineBreakKind:
